@@ -329,7 +329,7 @@ def doc_from_spec(spec, rnd):
             return {"type": "LANG_STRING", "value": dict(p[1])}
         def coord(v, off):
             if off:
-                return f"{v}.5" if rnd.random() < 0.7 else float(f"{v}.5") if v >= 0 else f"{v}.5"
+                return f"{v}.5" if rnd.random() < 0.6 else float(f"{v}.5")
             return rnd.choice([v, str(v)])
         return {"type": "POSITION_MARK", "value": {"name": p[1], "x": coord(p[4], p[2]), "y": coord(p[5], p[3])}}
 
@@ -370,6 +370,21 @@ def run_shard(shard, acc):
                     compile_case(acc, root, "main.exps", [], prog, None, inp, structured=bool(cfg), rnd=rnd)
                     if i == 1:
                         acc.sample({"source": inp["text"][:400], "class": "structured" if cfg else "any"})
+                    # the SsbScript spelling of the same routines (what the decompiler's fallback tells users to compile again)
+                    if i % 3 == 0:
+                        try:
+                            c0 = norm.compile_exps(inp["text"])
+                            st, _ = norm.decompile_ssbs(c0.routine_infos, c0.routine_ops, c0.named_coroutines)
+                        except Exception:
+                            st = None
+                        if st is not None:
+                            root = os.path.join(base, f"c{i}s")
+                            os.makedirs(root)
+                            t3 = "//?: is-ssb-script: true\n" + st
+                            with open(os.path.join(root, "main.exps"), "w", encoding="utf-8") as f:
+                                f.write(t3)
+                            acc.count("ssbscript_sources")
+                            compile_case(acc, root, "main.exps", [], prog, None, {"name": name + ":ssbscript", "text": t3, "structured": bool(cfg)}, structured=bool(cfg), rnd=rnd)
                     # hostile coincidence: the same program with one integer argument of a test made equal to the compiler's
                     # internal offset of that test's jump target (a printer that confuses argument and target shows here)
                     p2 = coincidence_variant(prog)
@@ -427,11 +442,25 @@ def run_shard(shard, acc):
                 if d.returncode != 0:
                     acc.violation(gsig("decompile-cli-rejects-documented-input", d.stderr.strip().split("\n")[-1][:70]), {"stderr": d.stderr[-400:]}, inp)
                     continue
+                # the command is a thin layer: on my own reading of the document (docs/cli_api_usage.rst) the decompiler API must
+                # give a text with the same ops (values included)
                 try:
-                    c2 = norm.compile_exps(d.stdout)
-                    acc.count("document_outputs_compile")
-                except Exception as e:
-                    acc.count("document_output_does_not_compile(C02)")
+                    infos2, ops2, named2 = norm.make_ops(spec_from_doc(doc))
+                    api_text, _ = norm.decompile_exps(infos2, ops2, named2)
+                except Exception:
+                    api_text = None
+                if api_text is not None and api_text.strip() != d.stdout.strip():
+                    try:
+                        a, b = norm.positional(norm.compile_exps(api_text).routine_ops), norm.positional(norm.compile_exps(d.stdout).routine_ops)
+                    except Exception:
+                        a = b = None
+                        acc.count("document_output_does_not_compile(C02)")
+                    if a != b:
+                        diff = next(((x, y) for ra, rb in zip(a, b) for x, y in zip(ra, rb) if x != y), None)
+                        acc.violation(gsig("decompile-cli-reads-the-document-differently", diff[0][0] if diff else "shape"),
+                                      {"api_reading": repr(diff[0])[:200] if diff else None, "cli_output": repr(diff[1])[:200] if diff else None}, inp)
+                        continue
+                acc.count("document_outputs_compared_with_api")
                 if i == 0:
                     acc.sample({"document": doc["routines"][:1], "stdout": d.stdout[:400]})
         else:
